@@ -1,14 +1,54 @@
-# Per-property texts for MANIFEST.json.
+# Per-property texts for MANIFEST.json (consumed by tools/mkmanifest.py).
 NOTE_STATEFUL = ("Trusted: the harness chain (block lifecycle, cache-branch discipline, module wiring copied from app/app.go and the repo's own "
-                 "integration-test fixture), the snapshot reader (cosmos ORM read path), math/big. Real: all regen-ledger keepers, SDK auth/bank, "
-                 "IAVL store. Not covered: signatures/ante, the real app package (does not build offline). A pass means 'held on everything explored'.")
+                 "integration-test fixture), the snapshot reader (cosmos ORM read path), math/big. Real and unmodified: all regen-ledger keepers and validators, "
+                 "SDK auth/bank, MsgServiceRouter/GRPCQueryRouter, IAVL store. Not covered: signatures/ante handlers, the real app package (does not build offline). "
+                 "A pass means 'held on everything explored'; open genuine defects are listed in known_findings.json and printed as KNOWN-FINDING.")
+NOTE_PURE = ("Trusted: math/big, the generators and the reference written for the check. Real: the functions under test, called directly. "
+             "A pass means 'held on everything explored'.")
+LVL = ("Generated-input search (pgregory.net/rapid) against an explicit oracle; the property quantifies over all histories/inputs, so falsification by search "
+       "with measured coverage is the level this technique offers. ")
+def S(level, technique): return {"level": LVL + level, "note": NOTE_STATEFUL, "technique": technique}
+def P(level, technique): return {"level": LVL + level, "note": NOTE_PURE, "technique": technique}
 TEXT = {
-    "C01": {
-        "level": "Generated-history search (rapid state machine, thousands of histories of 40-70 steps over every ecocredit message type with "
-                 "state-aware arguments) with the conservation relation recomputed in exact rationals from independent table scans after every step; "
-                 "the right level because the property quantifies over all histories and only falsification by search is available to this technique.",
-        "note": NOTE_STATEFUL,
-        "technique": "stateful property-based testing (rapid) with an exact-rational invariant over full-state snapshots",
-    },
+ "C01": S("Thousands of histories of 40-70 state-aware steps over every ecocredit message type; the conservation relation is recomputed in exact rationals from independent full-table scans after every step and compared with the chain's own registered invariant.",
+          "stateful property-based testing (rapid) with an exact-rational invariant over full-state snapshots"),
+ "C02": S("A ghost ledger of issued amounts is fed only from accepted issuing messages and compared with T+R+C of every batch after every step, together with one-way sealing.",
+          "stateful property-based testing (rapid) with a ghost-ledger oracle"),
+ "C03": S("A frame condition over before/after snapshots of every balance row and every bank balance for all non-signers, with the paid-fill and fee-pool exceptions computed from an exact reference.",
+          "stateful property-based testing (rapid) with a before/after frame oracle"),
+ "C04": S("Monotonicity of the three quantities is checked across every accepted message, block and restart by parent/child snapshot comparison.",
+          "stateful property-based testing (rapid) with a monotonicity oracle over the history"),
+ "C05": S("The exact integer relation between the REAL bank keeper's supply and the basket holdings is checked after every step, plus exact Put/Take deltas and the registered invariant.",
+          "stateful property-based testing (rapid) with an exact relation against the real bank keeper"),
+ "C06": S("Escrow versus open orders is recomputed from table scans after every step; order well-formedness and the allowed-denom gate are checked against the pre-state.",
+          "stateful property-based testing (rapid) with a state invariant"),
+ "C07": S("Every accepted BuyDirect is compared with an independent sequential reference in math/big.Rat, including a full frame over tables, balances and supply.",
+          "stateful property-based testing (rapid) with an exact-rational reference model"),
+ "C08": S("Role predicates are evaluated on the pre-state snapshot for every accepted guarded message of the four services, and row/field-level diffs are confined to the named entity.",
+          "stateful property-based testing (rapid) with a pre-state role oracle and row-level frame"),
+ "C09": S("Round trip export -> validate -> import -> re-export -> invariants over sampled reachable states, using the modules' own genesis entry points.",
+          "stateful property-based testing (rapid) with a round-trip oracle"),
+ "C10": S("Differential and metamorphic testing of recorded traces: 6 in-process executions with different restart sets (+1 in a second OS process in the thorough tier) must agree on hashes, results, events and gas.",
+          "differential / metamorphic testing of generated traces (rapid)"),
+ "C11": S("Put is checked in both directions against a reference admission rule with exact calendar arithmetic; Take is checked with a validity predicate (ties may go either way) and exact post-state.",
+          "stateful property-based testing (rapid) with a reference rule and a validity predicate"),
+ "C12": S("Every BeginBlock is checked under recover() against the pre/post order and balance tables with block times generated to land on, just before and just after expirations.",
+          "stateful property-based testing (rapid) with a block-step oracle"),
+ "C13": S("A ghost set of issued origin transactions and a ghost contract->batch map are maintained from accepted messages; EventBridge attributes are parsed and compared.",
+          "stateful property-based testing (rapid) with ghost-state oracles and event inspection"),
+ "C14": S("Ghost sequence counters, independently written formats and reference resolution after every step, plus pure round trips of formatters/validators/parsers and a native fuzz target on the validators.",
+          "stateful + pure property-based testing (rapid) and native go fuzzing against independently written formats"),
+ "C15": P("Round trip, injectivity on near pairs and canonical-form checks over generated hashes and structured/mutated IRI strings, plus native fuzzing of ParseIRI with the canonical-form oracle inside the target.",
+          "property-based testing (rapid) with round-trip / injectivity oracles and native go fuzzing"),
+ "C16": S("Configurations with weak and short ID hashers (injected through the verif hook) force collision chains; permanence and bijection are checked over all five data tables after every step.",
+          "stateful property-based testing (rapid) over hasher configurations with injected collisions"),
+ "C17": S("27 list queries and 11 single-entity queries go through the real GRPCQueryRouter and are compared with brute-force filtering of the snapshot for generated filters, page sizes and both paging modes.",
+          "differential testing of queries against brute-force filtering (rapid)"),
+ "C18": S("After every accepted configuration change, canary user operations run on a discarded branch and must succeed; fee charging is checked exactly against the real bank keeper.",
+          "stateful property-based testing (rapid) over configurations with canary operations"),
+ "C19": P("Hundreds of thousands of generated decimal pairs compared with an independent big-rational reference, including bit-level operand immutability via reflection; native fuzzing in the thorough tier.",
+          "property-based testing (rapid) against a math/big.Rat reference and native go fuzzing"),
+ "C20": P("The handler is run with hand-written recording fakes over generated owners, inner messages, block times and availability combinations after a real wire round trip of the outer message.",
+          "property-based testing (rapid) with recording fakes"),
 }
 NOT_APPLICABLE = {}
